@@ -16,7 +16,7 @@ An abstract project is a dict:
        walls: [{name, kind, layers, loc | (x, y, z, azimuth, tilt, polygon), intwalltype?, nextto?, abs?,
                 windows: [{name, gap, x, y, w, h, setback}]}]}]}]
   shades: [{name, x, y, z, h, w, azimuth, tilt} | {name, verts: [[x, y, z]]}]
-  tbs: [{name, ttl, frsi, long?}]
+  tbs: [{name, ttl, frsi, long?, type?, amin, amax, partition, defn?, ln, ll, lmuro, lmarco?}]
 """
 import json
 import os
@@ -228,6 +228,16 @@ def print_bdl(p, layout=None, want_doc=False):
         a = [("TTL", t.get("ttl", 0.5)), ("FRSI", t.get("frsi", 0.6))]
         if "long" in t:
             a.append(("LONG-TOTAL", t["long"]))
+        if "defn" in t:
+            a.append(("DEFINICION", t["defn"]))
+        if t.get("defn") == 3:
+            a += [("LISTA-N", [q(n) for n in t["ln"]]), ("LISTA-L", list(t["ll"])), ("LISTA-MURO", list(t["lmuro"]))]
+            if "lmarco" in t:
+                a.append(("LISTA-MARCO", list(t["lmarco"])))
+        if "type" in t:
+            a.append(("TYPE", t["type"]))
+            if t["type"] not in ("WINDOW-FRAME", "PILLAR"):
+                a += [("ANGLE-MIN", t["amin"]), ("ANGLE-MAX", t["amax"]), ("PARTITION", t["partition"])]
         P.block(t["name"], "THERMAL-BRIDGE", a)
     if want_doc:
         return P.text(), P.doc
@@ -412,6 +422,23 @@ def random_project(rng, nspaces=None, with_geometry_walls=False, space_offsets=F
     p["tbs"] = [{"name": "PT_frente_forjado", "ttl": round(rng.uniform(0.05, 1.2), 2), "frsi": round(rng.uniform(0.4, 0.9), 2), "long": rng.choice([0, 12.5, 40])},
                 {"name": "PT_hueco", "ttl": round(rng.uniform(0.05, 1.2), 2), "frsi": round(rng.uniform(0.4, 0.9), 2), "long": 8.0},
                 {"name": "PT_sin_longitud", "ttl": 0.11, "frsi": 0.71}]
+    # type, geometry and definition (by default 1, by the user 2, from the catalogue 3 with its lists) of the first two bridges; the third
+    # stays as old LIDER files write it. A catalogue bridge of a type without geometry (window frame, pillar) keeps its lists all the same.
+    for t in p["tbs"][:2]:
+        ty = rng.choice(["SLAB", "MASONRY", "UNDER-EXT", "WINDOW-FRAME", "PILLAR", None])
+        if ty:
+            t["type"] = ty
+            if ty not in ("WINDOW-FRAME", "PILLAR"):
+                t.update({"amin": rng.choice([0, 135]), "amax": rng.choice([180, 225, 360]), "partition": rng.choice(["YES", "NO", "BOTH"])})
+        d = rng.choice([None, 1, 2, 3, 3])
+        if d:
+            t["defn"] = d
+        if d == 3:
+            n = rng.randint(1, 2)
+            t.update({"ln": ["Clase de encuentro %d - del catalogo" % i for i in range(n)], "ll": [100] if n == 1 else [60, 40],
+                      "lmuro": [round(rng.uniform(0.15, 0.9), 2) for _ in range(n)]})
+            if rng.random() < 0.7:
+                t["lmarco"] = [round(rng.uniform(1.1, 3.5), 2) for _ in range(n)]
     return p
 
 
